@@ -482,6 +482,21 @@ func registerIntrinsics(e *Engine) {
 		}
 		return zero(fn.Signature.Results().At(0).Type()), true
 	}
+	in["golang.org/x/text/language.Parse"] = func(p *Path, _ *frame, fn *ssa.Function, a []value) (value, bool) {
+		p.stub("golang.org/x/text/language.Parse")
+		tag := zero(fn.Signature.Results().At(0).Type())
+		fails := false
+		if s, ok := cstr(a[0]); ok {
+			_, err := xlanguageParse(s)
+			fails = err != nil
+		} else {
+			fails = p.branch(p.tc.Var(SBool, "language.Parse.fails"))
+		}
+		if fails {
+			return tuple{tag, goErr(p, "language: tag is not well-formed")}, true
+		}
+		return tuple{tag, iface{}}, true
+	}
 	in["golang.org/x/text/message.NewPrinter"] = func(p *Path, _ *frame, fn *ssa.Function, a []value) (value, bool) {
 		p.stub("golang.org/x/text/message.NewPrinter")
 		return (*value)(nil), true
